@@ -26,7 +26,7 @@ CHECKS = {
          "DESIGN.md §5 C10"),
  "C18": ("exploration",
          "runtime monitor over harness-written manifests: directory-name refusal, containment of every lookup answer, inverse and stability of forward / reverse lookups, refusal of foreign paths",
-         "Field-wise manifests (exhaustive over a 30-name hostile directory alphabet x 3 shapes incl. aliases of equal length), PRNG manifests and structure- / byte-mutated manifests of real builds are written into a bundle root; whenever OpenDir accepts one, the four clauses of the property are checked over all listed packages and registry versions, 13 in-package path shapes (5 of them through links that exist on disk below the package directory) in two spellings and 7 foreign paths; every listed package is also looked up through text with 8 hostile sub-paths and through addresses derived by relative resolution with 6 climbing operands. 188 documents kept by coverage-guided fuzzing campaigns are replayed; thorough adds a native go test -fuzz run of OpenDir with the lookup assertions.",
+         "Field-wise manifests (exhaustive over a 30-name hostile directory alphabet x 3 shapes incl. aliases of equal length), PRNG manifests and structure- / byte-mutated manifests of real builds are written into a bundle root; whenever OpenDir accepts one, the four clauses of the property are checked over all listed packages and registry versions, 13 in-package path shapes (5 of them through links that exist on disk below the package directory) in two spellings and 7 foreign paths; every listed package is also looked up through text with 8 hostile sub-paths and through addresses derived by relative resolution with 6 climbing operands. 264 documents kept by coverage-guided fuzzing campaigns are replayed; thorough adds a native go test -fuzz run of OpenDir with the lookup assertions.",
          "The harness learns the document's directory names by decoding it leniently itself.",
          "DESIGN.md §5 C18"),
  "C08": ("exploration",
@@ -86,7 +86,7 @@ CHECKS = {
          "DESIGN.md §5 C04"),
  "C06": ("exploration",
          "runtime round-trip oracle (print -> kind parser -> == -> print) over grammar/mutated/corpus inputs and the API derivation closure, plus print-bucket equality check",
-         "Every value accepted by ParseSource/ParseFinalSource/ParseRemotePackage/ParseRegistryPackage from grammar-directed, mutated and corpus strings, and every value derived from those through Package/SourceAddr/Versioned/Unversioned/FinalSourceAddr/ResolveRelative*/MakeRemoteSource to depth 2, is printed, re-parsed and compared (type, ==, second print); values are bucketed by printed form and a bucket must be one ==-class. 3226 strings kept by coverage-guided fuzzing campaigns are replayed; thorough adds a native go test -fuzz run (4e6 executions) of the round-trip target. Held = held on every value observed (counts in the evidence).",
+         "Every value accepted by ParseSource/ParseFinalSource/ParseRemotePackage/ParseRegistryPackage from grammar-directed, mutated and corpus strings, and every value derived from those through Package/SourceAddr/Versioned/Unversioned/FinalSourceAddr/ResolveRelative*/MakeRemoteSource to depth 2, is printed, re-parsed and compared (type, ==, second print); values are bucketed by printed form and a bucket must be one ==-class. 3350 strings kept by coverage-guided fuzzing campaigns are replayed; thorough adds a native go test -fuzz run (4e6 executions) of the round-trip target. Held = held on every value observed (counts in the evidence).",
          "Observes only the public API; == is taken as the library's equality. One recorded finding (edge-whitespace) is matched by witness classification.",
          "DESIGN.md §5 C06"),
  "C07": ("exploration",
